@@ -288,6 +288,11 @@ PROFILES = {
                           prog_len=[0, 1, 1, 2], handlers_per_bus=[1, 2, 2], ncallers=[1, 2], p_caller_await=0.5),
     'late_child': dict(nb=[1, 2, 3], p_spawn=0.3, p_dispatch=0.25, p_dawait=0.2, p_pause=0.25, ncallers=[1, 2], p_caller_await=0.6, fwd='some'),
     'idle_gap': dict(nb=[2, 2, 3], p_gap=0.45, p_pause=0.35, long_p=0.3, prog_len=[1, 2, 2, 3], p_dispatch=0.1, caller_idle_p=0.7, ncallers=[2, 3], p_caller_await=0.2, max_depth=[1, 2]),
+    # wait_until_idle() callers next to handlers that time out while they process *another* bus's events inline (the
+    # situation of F28: the bus becomes idle through an interrupted inline processing and nobody else can say so)
+    'idle_timeouts': dict(nb=[2, 2, 3], ntypes=[1, 2], handlers_per_bus=[2, 3, 3], p_wild=0.6, p_sync=0.05, short_timeouts=(0.5, [0.05, 0.1, 0.15, 0.5]), long_p=0.6,
+                          p_pause=0.45, p_dawait=0.25, p_gap=0.25, p_dispatch=0.05, p_yield=0.0, prog_len=[1, 1, 2, 2], max_depth=[1, 2], caller_idle_p=0.7, ncallers=[2, 3],
+                          caller_len=[2, 3, 4], p_caller_await=0.2),
     'idle_race': dict(nb=[1, 2], caller_idle_p=0.6, ncallers=[2, 3], p_caller_await=0.3, p_raise=0.05),
     'idle_dead_loop': dict(nb=[1, 2], p_cancel_runloop=0.5, caller_idle_p=0.7, ncallers=[1, 2], caller_len=[2, 3, 4], p_caller_await=0.0, p_raise_cancelled=0.12, p_dawait=0.1, p_dispatch=0.2),
 }
